@@ -50,7 +50,22 @@ func snapFrame(qf qframe.QFrame) string {
 		return sb.String() + "UNOBSERVABLE: " + err.Error()
 	}
 	// names/types via the public accessors plus every cell
-	fmt.Fprintf(&sb, "names=%q types=%v\n", qf.ColumnNames(), qf.ColumnTypes())
+	names := qf.ColumnNames()
+	fmt.Fprintf(&sb, "names=%q types=%v\n", names, qf.ColumnTypes())
+	// behaviour probes: a member must also keep *behaving* as before (its column lookup structures are shared with
+	// relatives): overwriting any of its columns and re-ordering all of them gives the same layout as ever
+	for i, n := range names {
+		r := qf.Copy(n, names[(i+1)%len(names)])
+		fmt.Fprintf(&sb, "probe overwrite %q: err=%v names=%q\n", n, r.Err, r.ColumnNames())
+	}
+	if len(names) > 1 {
+		rev := make([]string, len(names))
+		for i, n := range names {
+			rev[len(names)-1-i] = n
+		}
+		r := qf.Select(rev...)
+		fmt.Fprintf(&sb, "probe select reversed: err=%v names=%q types=%v\n", r.Err, r.ColumnNames(), r.ColumnTypes())
+	}
 	for _, c := range tab.Cols {
 		sb.WriteString(c.Name + ":")
 		for r := 0; r < c.Len(); r++ {
@@ -470,6 +485,38 @@ func TestC01(t *testing.T) {
 						real[i] = a.Build(tab.MustCol(a.Col).Kind)
 					}
 					opName = fmt.Sprintf("Aggregate %v", aggs)
+					// a user aggregation that works in place on the slice it is given (a sort-based median does)
+					if rapid.IntRange(0, 2).Draw(t, "inplaceagg") == 0 {
+						c := tab.Cols[rapid.IntRange(0, len(tab.Cols)-1).Draw(t, "inplacecol")]
+						var fn interface{}
+						switch c.Kind {
+						case hx.KInt:
+							fn = func(xs []int) int { sort.Ints(xs); return xs[len(xs)/2] }
+						case hx.KFloat:
+							fn = func(xs []float64) float64 {
+								for i := range xs {
+									xs[i] = -777
+								}
+								return 1
+							}
+						case hx.KBool:
+							fn = func(xs []bool) bool {
+								for i := range xs {
+									xs[i] = !xs[i]
+								}
+								return true
+							}
+						default:
+							fn = func(xs []*string) *string {
+								for i := range xs {
+									xs[i] = nil
+								}
+								return nil
+							}
+						}
+						real = append(real, qframe.Aggregation{Fn: fn, Column: c.Name, As: "inplace"})
+						opName += " + in-place user aggregation of " + c.Name
+					}
 					run = func() { addFrame(g.Aggregate(real...), opName, newGrp()) }
 				}
 			default: // a view: read it and scribble over its Slice()
